@@ -227,12 +227,16 @@ pub fn check_conservation(
     for out in tx.outputs() {
         match out {
             Output::Coin { amount, asset_id, .. } => *outs.entry((*asset_id).into()).or_default() += *amount as u128,
-            Output::Change { amount, asset_id, .. } => {
-                *outs.entry((*asset_id).into()).or_default() += *amount as u128;
-                has_change.insert((*asset_id).into());
-            }
+            Output::Change { amount, asset_id, .. } => *outs.entry((*asset_id).into()).or_default() += *amount as u128,
             Output::Variable { amount, asset_id, .. } => *outs.entry((*asset_id).into()).or_default() += *amount as u128,
             _ => {}
+        }
+    }
+    // "a balance left without a change output" refers to the transaction as submitted: an asset
+    // that had a change output keeps it (execution must not turn it into something else)
+    for out in orig.outputs() {
+        if let Output::Change { asset_id, .. } = out {
+            has_change.insert((*asset_id).into());
         }
     }
     let (mut minted, mut burned, mut msgout) = (BTreeMap::<[u8; 32], u128>::new(), BTreeMap::<[u8; 32], u128>::new(), 0u128);
